@@ -27,7 +27,7 @@ RULE = ('pairs of dyadic spectra (2..8 samples each; identical / nested / overla
         'length 1, wrong length). distinct = (kind, op, sampling, units, sizes, first data); non-trivial = ranges differ or units differ')
 TRUSTED = ['scipy.interpolate.interp1d(kind="linear") is the piecewise-linear interpolant; np.linspace(a,b,n)[i] = a + i(b-a)/(n-1); np.clip',
            'NumPy ufuncs add/subtract/multiply/true_divide/power act element-wise']
-UNPROVEN = ['commutativity across units and unit invariance for DENSITY spectra are proved for operators homogeneous of degree one — addition, subtraction — (ufunc_value_scale, unit_invariance_density with the fill value re-expressed as a density, ufuncU_comm_across_units_density / add_comm_across_units_density for fill 0 and equal flux units); for MULTIPLICATION of two densities (fill 0) they are oracle only (a product of densities does not rescale like a density: the oracle compares physical values)',
+UNPROVEN = ['commutativity across units and unit invariance for DENSITY spectra are proved for operators homogeneous of degree one — addition, subtraction — (ufunc_value_scale, unit_invariance_density with the fill value re-expressed as a density, instances add_sub_unit_invariance_density, ufuncU_comm_across_units_density / add_comm_across_units_density for fill 0 and equal flux units); for MULTIPLICATION of two densities (fill 0) they are oracle only (a product of densities does not rescale like a density: the oracle compares physical values)',
             'operands unchanged / result is a new object: snapshots in the correspondence (no heap model)',
             'quadratic/cubic interpolation methods (spline kernels are not modelled); power between two spectra (irrational values)',
             ]
